@@ -547,7 +547,47 @@ def run(ctx):
                       'design_variants_in_model': nd, 'terminal_states': len(term),
                       'body_fault_states_not_replayed': body_states, 'runs_off_the_recorded_sequence': diverged,
                       'traces_judged': len(traces), 'traces_rejected': len(rejected), 'phase_wall_s': phase}
+    apalache_inductive(ctx)
+    ctx.assumptions.append('unbounded part: apalache/EnvProtocolInd.tla abstracts the collaborator calls to a counter N (any natural number); '
+                           'Apalache discharges Init => IndInv, IndInv /\\ Next => IndInv\' and IndInv => EnvRestored and refutes the negative control')
     ctx.exhaustive = not ctx.quick
+
+
+
+def apalache_inductive(ctx):
+    """Unbounded part: Apalache discharges the inductive invariant of apalache/EnvProtocolInd.tla (the protocol for
+    ANY number of collaborator calls) and refutes the negative control.  Three obligations + one refutation."""
+    import os
+    import shutil
+    import subprocess
+    spec = os.path.join(core.VERIF, 'apalache', 'EnvProtocolInd.tla')
+    out = os.path.join(ctx.scratch, 'apalache')
+    runs = [('Init => IndInv', ['--init=Init', '--inv=IndInv', '--length=0'], True),
+            ('IndInv /\\ Next => IndInv\'', ['--init=IndInit', '--inv=IndInv', '--length=1'], True),
+            ('IndInv => EnvRestored', ['--init=IndInit', '--inv=EnvRestored', '--length=0'], True),
+            ('negative control: raise without restore breaks IndInv', ['--init=IndInit', '--next=NextDev', '--inv=IndInv', '--length=1'], False)]
+    done = 0
+    results = []
+    for name, args, must_hold in runs:
+        cmd = ['apalache-mc', 'check', '--cinit=ConstInit'] + args + ['--out-dir=' + out, spec]
+        try:
+            p = subprocess.run(cmd, stdout=subprocess.PIPE, stderr=subprocess.STDOUT, text=True, timeout=900)
+        except (OSError, subprocess.TimeoutExpired) as ex:
+            raise core.MachineryError('apalache-mc failed to run: %r' % (ex,))
+        ok = 'The outcome is: NoError' in p.stdout
+        err = 'The outcome is: Error' in p.stdout
+        if not (ok or err):
+            raise core.MachineryError('apalache-mc gave no verdict for %s:\n%s' % (name, p.stdout[-1500:]))
+        if must_hold and not ok:
+            raise core.MachineryError('Apalache refuted the obligation %s' % name)
+        if not must_hold and not err:
+            raise core.MachineryError('Apalache did not refute the negative control')
+        done += 1
+        results.append({'obligation': name, 'verdict': 'holds' if ok else 'refuted (as required)'})
+    shutil.rmtree(out, ignore_errors=True)
+    ctx.cov['apalache_inductive'] = {'module': 'apalache/EnvProtocolInd.tla', 'constants': 'N \\in Nat (any number of collaborator calls)',
+                                     'obligations': 3, 'discharged': 3, 'negative_controls_refuted': 1, 'results': results,
+                                     'checker_cmd': 'apalache-mc check --cinit=ConstInit --init=... --inv=... --length=0|1 apalache/EnvProtocolInd.tla'}
 
 
 def replay(ctx, case):
